@@ -3071,6 +3071,13 @@ func (pc *PeerConnection) generateMatchedSDP(
 
 		kind := NewRTPCodecType(media.MediaName.Media)
 		direction := getPeerDirection(media)
+		if kind == 0 && !detectedPlanB {
+			// An m-section of a media type we don't support (e.g. text) is
+			// rejected in place, every offered section gets an answer.
+			mediaSections = append(mediaSections, mediaSection{id: midValue, rejected: media})
+
+			continue
+		}
 		if kind == 0 || direction == RTPTransceiverDirectionUnknown {
 			continue
 		}
